@@ -399,7 +399,9 @@ def phi(c, a, b):
         if b == FALSE:
             return b_and(c, a)
     if c[0] == "not":
-        return ("phi", c[1], b, a)
+        return phi(c[1], b, a)
+    if c[0] == "cmp" and c[1] in ("le", "ne"):
+        return phi(b_not(c), b, a)          # canonical polarity: conditions are 'lt' / 'eq'
     return ("phi", c, a, b)
 
 
